@@ -59,7 +59,7 @@ def typeOk (d : DType) : PVal → Bool
   | .str _ | .rstr _ _ => d == .str || d == .path
   | .list _ => d == .list
   | .dict _ => d == .dict
-  | .obj _ => false
+  | .obj r => d == .path && isPrefix "PosixPath(".toList r      -- a `Path` object (only a declared default can be one)
 
 /-- `Parameter.set_value` for one declared parameter against the data of ONE config:
 the config's value under `name_in_config`, else the default, else an error; then the type check -/
